@@ -53,6 +53,12 @@ def run_case(case):
     specs = {}
     for si in range(SPECS_PER_CASE[tier]):
         spec = gen.rand_spec(rnd, "quick", jobless_ok=True, max_len=50)
+        servers_ = [n for n, o in spec["objects"].items() if o["cls"] == "Server"]
+        if servers_:
+            # jobs declared on a server but used by no step (they never run): part of the model, although unreachable from the system
+            from ..spec import obj, q
+            for k_ in range(rnd.randint(1, 2)):
+                spec["objects"][f"jidle{k_}"] = obj("Job", server=["ref", rnd.choice(servers_)], request_duration=q(90, "s"))
         key = f"{case['idx']}-{si}"
         tags = gen.topo_classes(spec)
         if any(len(o["params"]["jobs"][1]) >= 2 for o in spec["objects"].values() if o["cls"] == "UsageJourneyStep"):
